@@ -97,8 +97,10 @@ func (c08) Gen(r *Rng, tier string, run int) *Trace {
 			// same type and length with another key): comparable, not equal
 			m.Args = append([]Val(nil), op.Args...)
 			for i, a := range m.Args {
-				if a.K == "awk" && (a.I == 8 || a.I == 27) && r.Bool(0.5) {
-					m.Args[i] = vAwk(int(8 + 27 - a.I))
+				if a.K == "awk" && r.Bool(0.5) {
+					if sib, ok := awkSibling(int(a.I)); ok {
+						m.Args[i] = vAwk(sib)
+					}
 				}
 			}
 			g.emit(m, false)
